@@ -82,6 +82,10 @@ func (p Password) Match(pw string) (bool, error) {
 		if p.Key == nil {
 			return false, errors.New("missing key")
 		}
+		if len(pw) > 72 {
+			// bcrypt silently ignores anything beyond 72 bytes
+			return false, nil
+		}
 		hashSemaphore <- struct{}{}
 		defer func() {
 			<-hashSemaphore
